@@ -1,4 +1,5 @@
 import VelaVerif.Lemmas.SrcBlockdep
+import VelaVerif.Gen.SrcArchitectureFeatures
 import VelaVerif.Gen.SrcRegisterCommandStreamUtil
 /-!
 # C06 (source tie) — translated helpers of `register_command_stream_util.py` (BLOCKDEP) equal
@@ -65,5 +66,30 @@ theorem src_get_first_job_input_volume_eq_model (a : Gen.AccRow) (ifmSize ofmSiz
         (.py ofmBlock.depth) (.py ofmBlock.height) (.py ofmBlock.width) (.py p.left) (.py p.top))
       (getFirstJobInputVolume a ifmSize ofmSize ifmBlockDepth ofmBlock k p blockOffset) :=
   gfjiv a ifmSize ofmSize ifmBlockDepth ofmBlock k p blockOffset hb hs hibd hid
+
+/-- `ArchitectureFeatures.calc_ifm_block_depth(ifm_depth, ifm_bits)` (`self.ifm_ublock.depth` is the only
+    attribute read; positive for every accelerator row): asserts exactly where the model says `none`,
+    the model's value otherwise -/
+theorem src_calc_ifm_block_depth_eq_model (a : Gen.AccRow) (ifmDepth ifmBits : Int) (hu : 0 < a.ifmUblock.depth) :
+    match calcIfmBlockDepth a ifmDepth ifmBits with
+    | none => Gen.SrcArchitectureFeatures.ArchitectureFeatures__calc_ifm_block_depth (.py ifmDepth) (.py ifmBits)
+        (.py a.ifmUblock.depth) = .error .assert_
+    | some v => Gen.SrcArchitectureFeatures.ArchitectureFeatures__calc_ifm_block_depth (.py ifmDepth) (.py ifmBits)
+        (.py a.ifmUblock.depth) = .ok (.py v) := by
+  unfold calcIfmBlockDepth NpuAccess.roundUp
+  have hr := SrcNumericUtil.round_up_py ifmDepth a.ifmUblock.depth (by omega)
+  by_cases hb : ifmBits = 8 ∨ ifmBits = 16 ∨ ifmBits = 32
+  · by_cases hd : ifmDepth > 0
+    · simp only [hb, hd, not_true_eq_false, if_false]
+      rcases hb with rfl | rfl | rfl <;>
+      · py_exec [Gen.SrcArchitectureFeatures.ArchitectureFeatures__calc_ifm_block_depth, hr, if_pos, if_neg, hd]
+    · simp only [hb, hd, not_true_eq_false, not_false_eq_true, if_false, if_true]
+      rcases hb with rfl | rfl | rfl <;>
+      · py_exec [Gen.SrcArchitectureFeatures.ArchitectureFeatures__calc_ifm_block_depth, if_pos, if_neg, hd]
+  · simp only [hb, not_false_eq_true, if_true]
+    have h8 : ¬ ifmBits = 8 := fun h => hb (Or.inl h)
+    have h16 : ¬ ifmBits = 16 := fun h => hb (Or.inr (Or.inl h))
+    have h32 : ¬ ifmBits = 32 := fun h => hb (Or.inr (Or.inr h))
+    py_exec [Gen.SrcArchitectureFeatures.ArchitectureFeatures__calc_ifm_block_depth, if_pos, if_neg, h8, h16, h32]
 
 end VelaVerif.Props.C06Src
